@@ -12,6 +12,7 @@ import (
 	"time"
 
 	"github.com/criyle/go-sandbox/container"
+	"github.com/criyle/go-sandbox/pkg/forkexec"
 	"github.com/criyle/go-sandbox/pkg/rlimit"
 	"github.com/criyle/go-sandbox/runner"
 	"github.com/criyle/go-sandbox/runner/ptrace"
@@ -185,6 +186,21 @@ func c12ops(tier string) []c12op {
 		}},
 		c12op{"container-exec-fails-after-sync", func(e *c12env, nonce string) string {
 			return statusName(e.c.Execve(context.Background(), execveParam([]string{"/probe/no-such-program", nonce})).Status)
+		}},
+		c12op{"container-clone-fails(bad cgroup descriptor)", func(e *c12env, nonce string) string {
+			p := execveParam([]string{"/probe/tree", nonce, "-", "exit:0"})
+			p.CgroupFD = devnull()
+			return statusName(e.c.Execve(context.Background(), p).Status)
+		}},
+		c12op{"forkexec-clone-fails(bad cgroup descriptor)", func(e *c12env, nonce string) string {
+			r := &forkexec.Runner{Args: []string{probe("tree"), nonce, "-", "exit:0"}, Env: []string{}, Files: stdioNull(), CgroupFd: devnull()}
+			_, err := r.Start()
+			return fmt.Sprint(err != nil)
+		}},
+		c12op{"forkexec-clone-fails+callback", func(e *c12env, nonce string) string {
+			r := &forkexec.Runner{Args: []string{probe("tree"), nonce, "-", "exit:0"}, Env: []string{}, Files: stdioNull(), CgroupFd: devnull(), SyncFunc: func(int) error { return nil }}
+			_, err := r.Start()
+			return fmt.Sprint(err != nil)
 		}},
 		c12op{"container-not-found", func(e *c12env, nonce string) string {
 			return statusName(e.c.Execve(context.Background(), execveParam([]string{"no-such-program", nonce})).Status)
